@@ -4,12 +4,24 @@ decides entailment between facts harvested from the source."""
 from fractions import Fraction
 
 
+def _norm(v):
+    if type(v) is int:
+        return v
+    if isinstance(v, bool):
+        return int(v)
+    if isinstance(v, Fraction):
+        return v.numerator if v.denominator == 1 else v
+    return Fraction(v)
+
+
 class Lin:
     __slots__ = ("c", "k")
 
     def __init__(self, c=None, k=0):
-        self.c = {s: Fraction(v) for s, v in (c or {}).items() if v != 0}
-        self.k = Fraction(k)
+        # coefficients are kept as plain ints whenever they are integral (Fractions only after a real division):
+        # int arithmetic and hashing are several times cheaper, values and hashes compare equal across the two types
+        self.c = {s: _norm(v) for s, v in (c or {}).items() if v != 0}
+        self.k = _norm(k)
 
     @staticmethod
     def sym(s):
